@@ -11,7 +11,8 @@ fn parse_top(text: &str, path: &str) -> Result<(SyntaxTree, Defines), Error> {
 pub fn main(args: &[String]) {
     let workdir = &args[0]; let tier = &args[1]; let seed: u64 = args[2].parse().unwrap(); let out = &args[3];
     let thorough = tier == "thorough";
-    let corp: Vec<_> = corpus::load(workdir).into_iter().filter(|x| x.kind == "sv" && !x.text.contains('`')).collect();
+    // directive-free programs, and programs whose only directives are kept ones (preprocessing is the identity on them — checked below)
+    let corp: Vec<_> = corpus::load(workdir).into_iter().filter(|x| x.kind == "sv" && !x.text.contains("`define") && !x.text.contains("`include") && !x.text.contains("`if") && !x.text.contains("`undef")).collect();
     let mut rng = Rng::new(seed ^ 0xc14);
     let root = format!("{}.fs", out);
     let _ = std::fs::remove_dir_all(&root); std::fs::create_dir_all(&root).unwrap();
@@ -42,7 +43,9 @@ pub fn main(args: &[String]) {
         let (text, pos, kind, via, del) = &j2[i];
         let r = std::panic::catch_unwind(std::panic::AssertUnwindSafe(|| -> Result<(), String> {
             if *kind == 0 {
-                let b = if i % 2 == 0 { '\u{1}' } else { '\u{7f}' };
+                // bytes / scalars that are neither SystemVerilog white space (blank, tab, line end, form feed) nor the start of any token;
+                // the last three ARE white space for char::is_whitespace
+                let b = ['\u{1}', '\u{7f}', '\u{b}', '\u{a0}', '\u{2028}', '\u{1}', '\u{7f}'][i % 7];
                 let mut t2 = text.clone(); t2.insert(*pos, b);
                 let (res, fname, shift) = if *via == 1 {
                     let f = format!("inc{}.sv", i); std::fs::write(&f, &t2).unwrap();
@@ -81,7 +84,7 @@ pub fn main(args: &[String]) {
         }));
         match r { Ok(x) => x, Err(e) => Err(format!("panic: {}", util::panic_msg(e))) }
     });
-    let mut rep = Report::new("accepted directive-free corpus programs x (a) byte 0x01 / 0x7f inserted at the start of an eligible token (not inside a directive, not glued to an escaped identifier), directly, inside an included file, or in the including file after an `include of a header whose length equals the offset at which the directive ends (source offsets run on across the file boundary); (b) one bracket / begin / block-closing keyword deleted; non-trivial = every mutant; distinct by (text, position, kind)");
+    let mut rep = Report::new("accepted directive-free corpus programs x (a) 0x01 / 0x7f / 0x0b (vertical tab) / U+00A0 / U+2028 inserted at the start of an eligible token (not inside a directive, not glued to an escaped identifier), directly, inside an included file, or in the including file after an `include of a header whose length equals the offset at which the directive ends (source offsets run on across the file boundary); (b) one bracket / begin / block-closing keyword deleted; non-trivial = every mutant; distinct by (text, position, kind)");
     // preprocessor-level faults
     for (t, fault) in [("module m;\n\"unterminated\n", 10usize), ("a /* open\n", 2), ("x \\\n", 2), ("ok\n`define\n", 3), ("`ifdef\n", 0)] {
         let d = no_defines(); let i = no_includes();
